@@ -159,12 +159,27 @@ mod verif_kani {
         assert!(r.cp == cp);
         assert!(r.a == close_session);
         assert!(r.b == close_object);
-        // and flute's own parser reads the same values back
-        let h = parse_lct_header(&data).unwrap();
-        assert!(same(&h, &r));
+        // (flute's own parser reads the same values back by composition with C06.lct.parse_vs_rfc:
+        //  parse(bytes) == rfc5651_decode(bytes) for every byte string)
     }
 
-    // @HARNESS id=C06.lct.push_vs_rfc.default_widths tier=quick kind=K props=C06,C15 bound="full domain of flags/psi/cp; CCI < 2^32, TSI < 2^48, TOI < 2^48 (the widths flute's sender uses by default)" timeout=1500
+    // @HARNESS id=C06.lct.push_vs_rfc.cci0 tier=quick kind=K props=C06,C15 bound="CCI == 0 (the only value flute's sender passes); full domain of TSI < 2^48, TOI < 2^112, flags, psi, cp" timeout=1500
+    #[cfg(kani)]
+    #[kani::proof]
+    #[kani::unwind(18)]
+    #[kani::stub(alloc::fmt::format, stub_format)]
+    #[kani::stub(crate::tools::error::FluteError::new, stub_flute_error_new)]
+    fn push_lct_vs_rfc_cci0() {
+        h_push_lct_vs_rfc_cci0(kani::any(), kani::any(), kani::any(), kani::any(), kani::any(), kani::any());
+    }
+    pub fn h_push_lct_vs_rfc_cci0(tsi: u64, toi: u128, psi: u8, cp: u8, b: bool, a: bool) {
+        vk_assume!(tsi < (1u64 << 48));
+        vk_assume!(toi < (1u128 << 112));
+        vk_assume!(psi < 4);
+        push_vs_rfc(0, tsi, toi, psi, cp, b, a);
+    }
+
+    // @HARNESS id=C06.lct.push_vs_rfc.default_widths tier=thorough kind=K props=C06,C15 bound="full domain of flags/psi/cp; CCI < 2^32, TSI < 2^48, TOI < 2^48" timeout=1500
     #[cfg(kani)]
     #[kani::proof]
     #[kani::unwind(18)]
